@@ -398,7 +398,8 @@ XSD_TYPE_NAMES: Dict[Type[AnyXSDType], str] = {k: "xs:" + v for k, v in {
     PositiveInteger: "positiveInteger",
     UnsignedLong: "unsignedLong",
     UnsignedShort: "unsignedShort",
-    UnsignedInt: "unsignedByte",
+    UnsignedInt: "unsignedInt",
+    UnsignedByte: "unsignedByte",
     AnyURI: "anyURI",
     String: "string",
     NormalizedString: "normalizedString",
